@@ -207,6 +207,111 @@ def noise_injecting(p, eng):
     return inj, info, cfgs
 
 
+ACCESSORS = ("at_mut", "at", "raw_mut", "raw", "index_mut", "index", "deref_mut", "deref", "as_mut", "as_ref", "data_mut", "data", "to_mut", "iter_mut", "get_mut",
+             "get_unchecked_mut", "borrow_mut", "as_mut_ptr", "as_mut_slice", "limb_u64_mut", "split_at_mut", "into", "from", "clone", "by_ref")
+OVERWRITE_OPS = {"vec_znx_zero", "vec_znx_normalize", "vec_znx_add_into", "vec_znx_add_scalar_into", "vec_znx_sub", "vec_znx_sub_scalar", "vec_znx_negate", "vec_znx_rsh",
+                 "vec_znx_lsh", "vec_znx_rotate", "vec_znx_automorphism", "vec_znx_mul_xp_minus_one", "vec_znx_switch_ring", "vec_znx_copy", "vec_znx_fill_uniform",
+                 "vec_znx_fill_normal", "vec_znx_big_from_small", "vec_znx_big_add_into", "vec_znx_big_add_small_into", "vec_znx_big_sub", "vec_znx_big_sub_small_a",
+                 "vec_znx_big_sub_small_b", "vec_znx_big_negate", "vec_znx_big_normalize", "vec_znx_big_automorphism", "vec_znx_idft_apply", "vec_znx_idft_apply_tmpa",
+                 "vec_znx_dft_apply", "vec_znx_dft_add_into", "vec_znx_dft_sub", "vec_znx_dft_copy", "vec_znx_dft_zero"}
+PLAIN_FILL = {"zero", "fill", "copy_from_slice", "clone_from_slice", "fill_with", "zero_at"}
+
+
+def overwrites_of(p, f, target_is, start_blocks, depth=0):
+    """plain overwrites of a buffer inside body f.  target_is(roots) decides whether a root set denotes the buffer.
+    start_blocks: only blocks reachable from these (None = whole body).  Returns list of (fn, line, what)."""
+    out = []
+    if depth > 3:
+        return out
+    g = CFG(f)
+    flow = Flow(f, transparent=ACCESSORS)
+    if start_blocks is None:
+        region = set(g.reach)
+    else:
+        region = set()
+        st = []
+        for b in start_blocks:
+            st.extend(g.succ[b])
+        while st:
+            x = st.pop()
+            if x in region:
+                continue
+            region.add(x)
+            st.extend(g.succ[x])
+    for bi in sorted(region):
+        blk = f.blocks[bi]
+        for si, s in enumerate(blk["s"]):
+            if s[0] == "CNO":
+                if s[2][0] in ("c", "m") and target_is(flow.op_roots(s[2])):
+                    out.append((f, s[4], "copy_nonoverlapping into the noise buffer"))
+                continue
+            if s[0] != "A":
+                continue
+            pl, rv = s[1], s[2]
+            if "*" in pl[1:] and len(pl) >= 2:
+                if target_is(flow.roots(pl[0])):
+                    # read-modify-write?
+                    rmw = False
+                    if rv["k"] == "Use":
+                        for r in flow.op_roots(rv["o"][0]):
+                            if r[0] == "bin":
+                                st2 = f.blocks[r[1]]["s"][r[2]][2]
+                                for o in st2["o"]:
+                                    if o[0] in ("c", "m") and "*" in o[1][1:] and target_is(flow.roots(o[1][0])):
+                                        rmw = True
+                    elif rv["k"] == "Bin":
+                        for o in rv["o"]:
+                            if o[0] in ("c", "m") and "*" in o[1][1:] and target_is(flow.roots(o[1][0])):
+                                rmw = True
+                    if not rmw:
+                        out.append((f, s[3], "plain store into the noise buffer"))
+            if rv["k"] == "Agg" and rv.get("ak") == "Closure":
+                cu = f.duid(rv["clos"])
+                cf = p.fn(cu)
+                if cf is None:
+                    continue
+                for k, o in enumerate(rv["o"]):
+                    if o[0] in ("c", "m") and target_is(flow.op_roots(o)):
+                        ks = str(k)
+                        out += overwrites_of(p, cf, lambda rr, ks=ks: any(r[0] == "param" and r[1] == 1 and r[2][:1] == (ks,) for r in rr), None, depth + 1)
+        t = blk["t"]
+        if t and t["k"] == "Call":
+            d = f.callee_def(t) or {}
+            n = d.get("n", "")
+            if n in PLAIN_FILL and t["a"] and target_is(flow.op_roots(t["a"][0])):
+                out.append((f, t["l"], "%s() on the noise buffer" % n))
+            if n in OVERWRITE_OPS and len(t["a"]) > 1 and target_is(flow.op_roots(t["a"][1])):
+                out.append((f, t["l"], "%s overwrites the noise buffer" % n))
+    return out
+
+
+def rnd7(p, res, eng, kernels):
+    for ku in kernels:
+        f = p.fn(ku)
+        flow = Flow(f, transparent=ACCESSORS)
+        n_sites = 0
+        for ff, bi, role, og in eng.sink_sites:
+            if ff.uid != ku or role != "error":
+                continue
+            n_sites += 1
+            t = f.blocks[bi]["t"]
+            buf_roots = {r for r in flow.op_roots(t["a"][2]) if r[0] in ("call", "param")}
+            keys = {(r[0], r[1]) for r in buf_roots}
+            if not keys:
+                res.undec("RND-7", "%s: noise buffer origin not resolved" % f.pretty)
+                continue
+            ow = overwrites_of(p, f, lambda rr, keys=keys: any((r[0], r[1]) in keys for r in rr), [bi])
+            # the consuming normalisation of the very buffer as *input* is not an overwrite; vec_znx_normalize(res <- buf) has buf as operand 5
+            if ow:
+                g, line, what = ow[0]
+                res.bad("RND-7", f.pretty, "noise-overwritten", "%s: %s after the error was added to it (%d site(s)): the injected noise is discarded for the affected limbs" % (f.pretty, what, len(ow)),
+                        site=g.where(line))
+            else:
+                res.ok("RND-7", {"kernel": f.pretty, "noise_site": f.where(t["l"]), "later_overwrites": 0})
+        if n_sites == 0:
+            res.bad("RND-7", f.pretty, "anchor-lost:noise-site", "no noise site found in kernel")
+
+
 def run(res, tier):
     res.level = "other"
     res.explanation = ("Call discipline behind C06, decided on MIR with an interprocedural role inference over `&mut Source` / seed values: every routine whose streams reach a mask or "
@@ -218,6 +323,7 @@ def run(res, tier):
     res.rule("RND-3", "no Source::new with a loop-invariant seed inside a loop or a per-row closure")
     res.rule("RND-4", "no entropy source other than Source in library code")
     res.rule("RND-6", "in every noise kernel the radix handed to the noise sink, the mask sink and the result normalisation is one and the same value")
+    res.rule("RND-7", "after the noise sink has added the error to a buffer, nothing plainly overwrites that buffer (store that is not read-modify-write, zero/fill/copy, overwrite-type HAL op, including inside later closures) before it is consumed")
     res.rule("RND-5", "HashMap iteration flows into an order-insensitive consumer or is sorted before use")
     res.assumptions = ["noise/mask sink implementations (sampling kernels) are as documented (C01/C10 territory)", "do-while abstraction: an encryption over zero rows/columns writes no cell"]
     cfgs = ["avx-dev"] if tier == "quick" else ["avx-dev", "ref-dev", "avx-nodbg"]
@@ -468,6 +574,8 @@ def run(res, tier):
                 res.ok("RND-6", {"kernel": f.pretty, "radix": list(vals)[0], "sites": sorted(set(sum(vals.values(), [])))})
             else:
                 res.bad("RND-6", f.pretty, "radix-mismatch", "%s: noise / mask / normalisation use different radices: %s" % (f.pretty, {k: sorted(set(v)) for k, v in vals.items()}), site=f.where())
+
+        rnd7(p, res, eng, kernels)
 
         # ---------------- RND-3
         n3 = 0
